@@ -220,3 +220,60 @@ func VerifC04_Fastq() {
 	verifObserve("c04fq", len(recs), len(text), len(alt))
 	verifReach("end")
 }
+
+// VerifC03_FastqStructured: a four-line record whose sequence and quality lines have
+// independent lengths (case-split), all their bytes symbolic, plus one arbitrary byte
+// substituted at a symbolic position of the whole text. Read never panics; when the text is
+// the unmutated record, it is accepted exactly when the two lengths agree (a length mismatch
+// is an error).
+func VerifC03_FastqStructured() {
+	sl, ql := verifParam("seqlen"), verifParam("quallen")
+	crlf := verifParam("crlf") == 1
+	nl := []byte("\n")
+	if crlf {
+		nl = []byte("\r\n")
+	}
+	var text []byte
+	text = append(text, '@', verifByte("name", 'a', 'z'))
+	text = append(text, nl...)
+	for i := 0; i < sl; i++ {
+		text = append(text, verifByte("s"+string(rune('a'+i)), 'A', 'z'))
+	}
+	text = append(text, nl...)
+	text = append(text, '+')
+	text = append(text, nl...)
+	for i := 0; i < ql; i++ {
+		text = append(text, verifByte("q"+string(rune('a'+i)), '!', '~'))
+	}
+	if verifBool("final-newline") {
+		text = append(text, nl...)
+	}
+	mutated := verifBool("mutate")
+	if mutated {
+		text[verifChoice("mutpos", len(text))] = verifByte("mutbyte", 0, 127)
+	}
+	r := NewReader(bytes.NewReader(text), linear.NewQSeq("", nil, alphabet.DNA, alphabet.Sanger))
+	s, err, panicked := verifRead(r)
+	verifAssert(!panicked, "read-never-panics")
+	if panicked {
+		return
+	}
+	verifAssert(s != nil || err != nil, "record-or-error")
+	if !mutated && sl > 0 {
+		if sl == ql {
+			verifAssert(err == nil && s != nil && s.Len() == sl, "well-formed-record-accepted")
+		} else {
+			verifAssert(err != nil, "length-mismatch-is-an-error")
+		}
+	}
+	for k := 0; k < 4 && err == nil; k++ {
+		_, err, panicked = verifRead(r)
+		verifAssert(!panicked, "read-never-panics")
+		if panicked {
+			return
+		}
+	}
+	verifAssert(err != nil, "reaches-eof-or-error")
+	verifObserve("c03fqs", sl, ql, mutated, err == io.EOF)
+	verifReach("end")
+}
